@@ -174,6 +174,24 @@ def _ser_scale_episodes(g):
             g.emit("rd %s %s %s reuse" % (y, r.choice(ENTRIES), x))
             g.emit("card %s" % y)
             g.count("ser:grown-receiver")
+    # run chunks around the largest run count the library keeps as runs (2+4*runs < 8224: up to 2055 runs), alone and beside other
+    # chunks, through every entry point and into a used receiver
+    for n in (2040, 2047, 2048, 2049, 2050, 2053, 2055, 2056):
+        x = g.fresh("mr")
+        g.emit("new %s" % x)
+        for off in (0, 1, 2):
+            g.emit("addstride %s %d 31 %d" % (x, 3 * 65536 + off, n))
+        if n % 2:
+            g.emit("addr %s %d %d" % (x, 9 * 65536, 9 * 65536 + 70000))
+        g.emit("opt %s" % x)
+        g.emit("ser %s" % x)
+        for e in ENTRIES:
+            y = g.fresh()
+            g.emit("rd %s %s %s" % (y, e, x))
+        y = g.fresh("u")
+        g.emit("of %s 1 2 3 70000 140000" % y)
+        g.emit("rd %s %s %s reuse" % (y, r.choice(ENTRIES), x))
+        g.count("ser:max-run-count")
 
 
 @suite("serall")
